@@ -285,6 +285,8 @@ func TestC05(t *testing.T) {
 			msg = checkProgram(c, run(c, hugeCPU))
 		case "intercept":
 			msg = checkIntercept(c)
+		case "cost":
+			msg = checkCost(c)
 		default:
 			msg = checkUnmetered(c)
 		}
@@ -330,6 +332,24 @@ func TestC05(t *testing.T) {
 				rec.Violation("intercept", c, tpl.name+fmt.Sprintf(" under cpu limit %d: ", L)+msg)
 				return
 			}
+		}
+	}
+
+	// (4) iteration-cost stability: accounting is deterministic, so N closed,
+	// identical iterations of one snippet in one runtime cost the same number
+	// of units each (no hidden state such as a pool decides what is charged)
+	for _, sn := range costSnippets {
+		idx++
+		if !rec.Mine(idx) {
+			continue
+		}
+		c := limCase{Source: costProgram(sn.body, rec.Pick(40, 400), "cpu"), Limit: 2_000_000_000, Kind: "cost", Name: sn.name}
+		rec.Eval()
+		rec.Class("cost-stability:" + sn.name)
+		rec.NonTrivial("cost|" + sn.name)
+		if msg := checkCost(c); msg != "" {
+			rec.Violation("cost", c, sn.name+": "+msg)
+			return
 		}
 	}
 
